@@ -52,6 +52,35 @@ type fullGen struct {
 	idx  uint64
 	core *coreGen
 	opn  uint64 // chunking op numbers
+	// graph: the service-graph / gateway directed profile (long histories dominated by config entries,
+	// proxies and gateways, so that discovery chains, gateway mappings and virtual IPs pile up and single
+	// writes touch several of them)
+	graph bool
+}
+
+// weight of a generator under the current profile
+func (g *fullGen) weightOf(gf genFn) int {
+	if !g.graph {
+		return gf.weight
+	}
+	switch gf.name {
+	case "config-entry":
+		return 70
+	case "register":
+		return 30
+	case "deregister":
+		return 5
+	case "intention":
+		return 10
+	case "manual-vips":
+		return 8
+	case "peering-write", "system-metadata", "txn-full":
+		return 2
+	case "kvs", "session", "core":
+		return 1
+	default:
+		return 0
+	}
 }
 
 type built struct {
@@ -172,18 +201,19 @@ func typesReport() (map[string]interface{}, []int) {
 func (g *fullGen) nextBuilt() *built {
 	tot := 0
 	for _, gf := range generators {
-		tot += gf.weight
+		tot += g.weightOf(gf)
 	}
 	for tries := 0; tries < 50; tries++ {
 		r := g.rng.Intn(tot)
 		for _, gf := range generators {
-			if r < gf.weight {
+			w := g.weightOf(gf)
+			if r < w {
 				if b := gf.fn(g); b != nil {
 					return b
 				}
 				break
 			}
-			r -= gf.weight
+			r -= w
 		}
 	}
 	return genKVS(g)
@@ -675,6 +705,10 @@ func generate(seed int64, tier string, n int, emit func(interface{})) {
 		emit(h)
 	}
 	mixes := []string{"kv", "session", "txn"}
+	firstGenerated := id
+	if firstGenerated%4 == 3 {
+		firstGenerated++
+	}
 	for ; id < n; id++ {
 		r := newReplica()
 		hs := rng.Int63()
@@ -695,13 +729,18 @@ func generate(seed int64, tier string, n int, emit func(interface{})) {
 		g := &fullGen{rng: rand.New(rand.NewSource(hs)), r: r}
 		g.core = &coreGen{rng: g.rng, r: r, mix: mixes[id%3]}
 		h := History{ID: id, Profile: "full"}
+		// one history in 50 (and at least the first generated one) follows the service-graph profile
+		g.graph = id%50 == 5 || id == firstGenerated
+		if g.graph {
+			h.Profile = "graph"
+		}
 		// preamble: the system metadata a leader writes when it establishes leadership
 		pre := []Entry{}
-		if g.rng.Intn(10) < 8 {
+		if g.rng.Intn(10) < 8 || g.graph {
 			g.idx++
 			pre = append(pre, sysmeta(g.idx, structs.SystemMetadataVirtualIPsEnabled, "true"))
 		}
-		if g.rng.Intn(10) < 5 {
+		if g.rng.Intn(10) < 5 || g.graph {
 			g.idx++
 			pre = append(pre, sysmeta(g.idx, structs.SystemMetadataTermGatewayVirtualIPsEnabled, "true"))
 		}
@@ -721,7 +760,7 @@ func generate(seed int64, tier string, n int, emit func(interface{})) {
 			}
 			pre = append(pre, Entry{Idx: g.idx, Kind: "acl-policy-set", Type: int(structs.ACLPolicySetRequestType), Data: hex.EncodeToString(data)})
 		}
-		if g.rng.Intn(10) < 4 {
+		if g.rng.Intn(10) < 4 || (g.graph && g.rng.Intn(4) > 0) {
 			// an operator's proxy-defaults with an L7 protocol: routers, splitters and http listeners are then accepted
 			g.idx++
 			pd := &structs.ProxyConfigEntry{Kind: structs.ProxyDefaults, Name: structs.ProxyConfigGlobal, Config: map[string]interface{}{"protocol": "http"}}
@@ -736,7 +775,11 @@ func generate(seed int64, tier string, n int, emit func(interface{})) {
 		}
 		g.apply(pre)
 		h.Entries = append(h.Entries, pre...)
-		for k, ln := 0, 5+rng.Intn(36); k < ln; k++ {
+		ln := 5 + rng.Intn(36)
+		if g.graph {
+			ln = 160 + rng.Intn(80)
+		}
+		for k := 0; k < ln; k++ {
 			es := g.next()
 			alive := g.apply(es)
 			h.Entries = append(h.Entries, es...)
